@@ -227,9 +227,19 @@ impl FragmentedMuxer {
         let first_dts = self.samples[0].dts;
         let last_dts = self.samples.last().unwrap().dts;
         let duration_ticks = last_dts.saturating_sub(first_dts);
-        let duration_ms = duration_ticks * 1000 / self.config.timescale as u64;
+        let duration_ms = self.ticks_to_ms(duration_ticks);
 
         duration_ms >= self.config.fragment_duration_ms as u64
+    }
+
+    /// Convert a tick count to milliseconds without overflowing; a zero
+    /// timescale yields 0 and results beyond u64 saturate.
+    fn ticks_to_ms(&self, ticks: u64) -> u64 {
+        if self.config.timescale == 0 {
+            return 0;
+        }
+        let ms = ticks as u128 * 1000 / self.config.timescale as u128;
+        u64::try_from(ms).unwrap_or(u64::MAX)
     }
 
     /// Get current fragment duration in milliseconds.
@@ -240,7 +250,7 @@ impl FragmentedMuxer {
         let first_dts = self.samples[0].dts;
         let last_dts = self.samples.last().unwrap().dts;
         let duration_ticks = last_dts.saturating_sub(first_dts);
-        duration_ticks * 1000 / self.config.timescale as u64
+        self.ticks_to_ms(duration_ticks)
     }
 }
 
